@@ -87,7 +87,26 @@ fn read_old(bytes: &[u8], probes: &[Vec<u8>], limit: usize) -> Result<(Vec<Entry
 
 fn check_case(ctx: &Ctx, stream: &str, idx: u64, label: &str, cfg: &WCfg, entries: &[Entry], rng: &mut Rng) {
     let detail = |what: &str, obs: String| J::obj().set("case", label).set("config", cfg.render()).set("n_entries", entries.len()).set("entries", gen::render_entries(entries, 6)).set("what", what).set("observed", obs);
-    let Ok(bytes) = gen::build_file(cfg, entries) else {
+    // one file in eight is written through a sink that accepts writes only partially
+    let h = gen::case_hash(cfg, entries);
+    let built = if h % 8 == 0 {
+        ctx.count("files_written_through_a_partial_write_sink", 1);
+        guarded(|| -> Result<Vec<u8>, String> {
+            let (sink, shared) = crate::io_mon::MonSink::new("sink", crate::io_mon::SplitState::new(crate::io_mon::Split::Rand, h), None);
+            let mut w = cfg.builder().build(sink);
+            for (k, v) in entries {
+                w.insert(k, v).map_err(|e| e.to_string())?;
+            }
+            w.finish().map_err(|e| e.to_string())?;
+            let g = shared.lock().unwrap();
+            Ok(g.bytes.clone())
+        })
+        .map_err(|p| format!("panic: {}", p))
+        .and_then(|r| r)
+    } else {
+        gen::build_file(cfg, entries)
+    };
+    let Ok(bytes) = built else {
         ctx.count("files_unbuildable_skipped", 1);
         return;
     };
